@@ -608,9 +608,6 @@ def run(ctx):
     # round-robin over the files so that the (heavier) directed cases are spread over all coqc jobs
     nfiles = max(1, min(16, -(-len(body) // 40))) if len(body) <= 16 * per_file else -(-len(body) // per_file)
     files = [(body[i::nfiles], recs[i::nfiles]) for i in range(nfiles) if body[i::nfiles]]
-    from harness import statecarry
-
-    statecarry.run_for(ctx, "C08")      # sequences of calls (state carried between calls)
     large_stream(ctx)
     mism = []
     if gen_ok:
